@@ -1175,7 +1175,7 @@ class UnitValue :
         elif isnumber(v):
             return self.value > v
         else :
-            return TypeError("UnitValue can only be compared with numbers and UnitValues with the same units dimensions.")
+            raise TypeError("UnitValue can only be compared with numbers and UnitValues with the same units dimensions.")
 
     def __ge__(self, v) :
         """
@@ -1205,7 +1205,7 @@ class UnitValue :
         elif isnumber(v):
             return self.value >= v
         else :
-            return TypeError("UnitValue can only be compared with numbers and UnitValues with the same units dimensions.")
+            raise TypeError("UnitValue can only be compared with numbers and UnitValues with the same units dimensions.")
 
 
     def __lt__(self, v) :
@@ -1236,7 +1236,7 @@ class UnitValue :
         elif isnumber(v):
             return self.value < v
         else :
-            return TypeError("UnitValue can only be compared with numbers and UnitValues with the same units dimensions.")
+            raise TypeError("UnitValue can only be compared with numbers and UnitValues with the same units dimensions.")
 
     def __le__(self, v) :
         """
@@ -1266,7 +1266,7 @@ class UnitValue :
         elif isnumber(v):
             return self.value <= v
         else :
-            return TypeError("UnitValue can only be compared with numbers and UnitValues with the same units dimensions.")
+            raise TypeError("UnitValue can only be compared with numbers and UnitValues with the same units dimensions.")
 
 
     def copy(self) :
